@@ -294,6 +294,166 @@ fn strategy(processes: bool, max_len: usize) -> impl Strategy<Value = Case> {
         })
 }
 
+// ---------------------------------------------------------------------------------------------
+// Key generation with several non-primitive tables of one family
+// ---------------------------------------------------------------------------------------------
+
+/// A circuit with two Poseidon2 tables (width 16 and width 32) registered through
+/// `poseidon2_air_builders_for_configs`, the way `FriRecursionBackend::with_extra_poseidon2_table`
+/// does: table order, degrees and preprocessed traces must be the same on every derivation.
+#[derive(Clone, Debug, Serialize, Deserialize, Hash)]
+pub struct TwoTables {
+    pub rows16: u8,
+    pub rows32: u8,
+    /// interleave the calls of the two widths instead of one block per width
+    pub interleave: bool,
+    /// registration order of the two configurations
+    pub wide_first: bool,
+    pub public_lanes: u8,
+    pub alu_lanes: u8,
+    pub seed: u64,
+}
+
+pub const RULE_TABLES: &str = "circuits with 1-6 width-16 and 1-6 width-32 Poseidon2 permutation rows (KoalaBear, \
+degree 4; one block per width or interleaved calls) and both tables registered through \
+poseidon2_air_builders_for_configs (either order) x table packing; the circuit is rebuilt and the AIRs, degrees and \
+preprocessed traces are derived 8 times in one process. Oracle: op list, table order (width, degree) and every \
+preprocessed trace identical on every derivation. Non-trivial = every case; distinct on (rows, interleave, order, packing)";
+
+fn two_tables_signatures(c: &TwoTables) -> Result<Vec<u64>, String> {
+    use p3_air::BaseAir;
+    use p3_circuit::CircuitBuilder;
+    use p3_circuit::ops::{Poseidon2Config, Poseidon2PermCall, generate_poseidon2_trace};
+    use p3_circuit_prover::batch_stark_prover::poseidon2_air_builders_for_configs;
+    use p3_circuit_prover::common::{NpoPreprocessor, get_airs_and_degrees_with_prep};
+    use p3_circuit_prover::config::KoalaBearConfig;
+    use p3_circuit_prover::{ConstraintProfile, Poseidon2Preprocessor, TablePacking};
+    use p3_field::{PrimeCharacteristicRing, PrimeField64};
+    use p3_koala_bear::{KoalaBear, default_koalabear_poseidon2_16, default_koalabear_poseidon2_32};
+    use p3_poseidon2_circuit_air::{KoalaBearD4Width16, KoalaBearD4Width32};
+    type F = KoalaBear;
+    type EF = p3_field::extension::BinomialExtensionField<F, 4>;
+    const W16: Poseidon2Config = Poseidon2Config::KOALA_BEAR_D4_W16;
+    const W32: Poseidon2Config = Poseidon2Config::KOALA_BEAR_D4_W32;
+    let (n16, n32) = (1 + (c.rows16 % 6) as usize, 1 + (c.rows32 % 6) as usize);
+    let packing = TablePacking::new(1 + (c.public_lanes % 3) as usize, 1 + (c.alu_lanes % 4) as usize);
+    let mut sigs = vec![];
+    for _round in 0..8 {
+        let mut b = CircuitBuilder::<EF>::new();
+        b.enable_poseidon2_perm::<KoalaBearD4Width16, _>(
+            generate_poseidon2_trace::<EF, KoalaBearD4Width16>,
+            default_koalabear_poseidon2_16(),
+        );
+        b.enable_poseidon2_perm_width_32::<KoalaBearD4Width32, _>(
+            generate_poseidon2_trace::<EF, KoalaBearD4Width32>,
+            default_koalabear_poseidon2_32(),
+        );
+        let mut order: Vec<bool> = vec![];
+        if c.interleave {
+            let (mut a, mut w) = (n16, n32);
+            while a + w > 0 {
+                if a > 0 {
+                    order.push(false);
+                    a -= 1;
+                }
+                if w > 0 {
+                    order.push(true);
+                    w -= 1;
+                }
+            }
+        } else {
+            order.extend(std::iter::repeat_n(false, n16));
+            order.extend(std::iter::repeat_n(true, n32));
+        }
+        for (i, wide) in order.iter().enumerate() {
+            let cfg = if *wide { W32 } else { W16 };
+            let inputs = (0..cfg.width_ext())
+                .map(|k| {
+                    let v = c.seed.wrapping_add((i * 100 + k) as u64) % 1_000_003 + 1;
+                    Some(b.alloc_const(EF::from_u64(v), "perm_in"))
+                })
+                .collect();
+            let (_, outputs) = b
+                .add_poseidon2_perm(&Poseidon2PermCall {
+                    config: cfg,
+                    new_start: true,
+                    merkle_path: false,
+                    mmcs_bit: None,
+                    mmcs_bit2: None,
+                    inputs,
+                    out_ctl: vec![true; cfg.rate_ext()],
+                    return_all_outputs: false,
+                    mmcs_index_sum: None,
+                })
+                .map_err(|e| format!("add_poseidon2_perm: {e:?}"))?;
+            if let (Some(Some(x)), Some(Some(y))) = (outputs.first(), outputs.get(1)) {
+                b.add(*x, *y);
+            }
+        }
+        let circuit = b.build().map_err(|e| format!("build: {e:?}"))?;
+        let preprocessors: Vec<Box<dyn NpoPreprocessor<F>>> = vec![Box::new(Poseidon2Preprocessor)];
+        let cfgs = if c.wide_first { vec![W32, W16] } else { vec![W16, W32] };
+        let air_builders = poseidon2_air_builders_for_configs::<KoalaBearConfig, 4>(cfgs);
+        let (airs_degrees, _prim, _nonprim) = get_airs_and_degrees_with_prep::<KoalaBearConfig, _, 4>(
+            &circuit,
+            &packing,
+            &preprocessors,
+            &air_builders,
+            ConstraintProfile::Standard,
+        )
+        .map_err(|e| format!("get_airs_and_degrees_with_prep: {e:?}"))?;
+        let ops: Vec<String> = circuit.ops.iter().map(crate::e1::fmt_op::<crate::fields::Kb4>).collect();
+        let tables: Vec<(usize, usize, Vec<u64>)> = airs_degrees
+            .iter()
+            .map(|(air, degree)| {
+                let prep: Vec<u64> = BaseAir::<F>::preprocessed_trace(air)
+                    .map(|m| m.values.iter().map(|x| x.as_canonical_u64()).collect())
+                    .unwrap_or_default();
+                (BaseAir::<F>::width(air), *degree, prep)
+            })
+            .collect();
+        sigs.push(hash_of(&(ops, tables)));
+    }
+    Ok(sigs)
+}
+
+pub fn oracle_tables(c: &TwoTables) -> Report {
+    let rep = Report::pass()
+        .class(if c.interleave { "calls:interleaved" } else { "calls:blocks" })
+        .class(if c.wide_first { "registered:w32-first" } else { "registered:w16-first" })
+        .nontrivial(true)
+        .key(hash_of(&(c.rows16 % 6, c.rows32 % 6, c.interleave, c.wide_first, c.public_lanes % 3, c.alu_lanes % 4)));
+    match crate::fw::catch(|| two_tables_signatures(c)) {
+        Err(p) => Report::fail(format!("C18/two-tables:panic:{}", crate::fw::sig_of_panic(&p)), p),
+        Ok(Err(e)) => Report::discard(format!("not buildable: {}", e.chars().take(80).collect::<String>())),
+        Ok(Ok(sigs)) => {
+            if let Some(i) = sigs.iter().position(|s| *s != sigs[0]) {
+                let mut r = Report::fail(
+                    "C18/two-tables:derivation-differs".to_string(),
+                    format!("derivation #{i} of the same circuit (two Poseidon2 tables) differs from derivation #0 in op list, table order or preprocessed traces"),
+                );
+                r.classes = rep.classes;
+                return r;
+            }
+            rep.class("outcome:8-derivations-identical")
+        }
+    }
+}
+
+fn tables_strategy() -> impl Strategy<Value = TwoTables> {
+    (0u8..6, 0u8..6, any::<bool>(), any::<bool>(), 0u8..3, 0u8..4, any::<u64>()).prop_map(
+        |(rows16, rows32, interleave, wide_first, public_lanes, alu_lanes, seed)| TwoTables {
+            rows16,
+            rows32,
+            interleave,
+            wide_first,
+            public_lanes,
+            alu_lanes,
+            seed,
+        },
+    )
+}
+
 pub fn run(ctx: &Ctx) {
     ctx.assume("hash seeds and thread interleavings are sampled by the runtime, not controlled");
     ctx.assume("proof bytes are not compared (parallel proof-of-work grinding may return any valid witness); the property names the operation list, numbering, preprocessed columns, table order and preprocessed commitment");
@@ -302,4 +462,6 @@ pub fn run(ctx: &Ctx) {
     ctx.explore("in-process", RULE, n, || strategy(false, 30), oracle);
     let n2 = ctx.tier.pick(250, 6000);
     ctx.explore("processes", RULE, n2, || strategy(true, 16), oracle);
+    let n3 = ctx.tier.pick(600, 20_000);
+    ctx.explore("two-perm-tables", RULE_TABLES, n3, tables_strategy, oracle_tables);
 }
